@@ -55,7 +55,7 @@ PY = sys.executable
 WS = "dev/src/app/1/workspace"
 ATTIC = "dev/src/app/1/attic"
 DIRS = [".", "a", "b", "a/sub", "sub", "nest", "b/nest", "+x"]
-IGNORED = ["sub", "nest"]
+IGNORED = ["sub", "nest", "+x"]
 
 
 # ====================================================================== recipes
@@ -559,6 +559,10 @@ def _history(w, r, rec, nevents, want_model, parse_gitlog, snap_of, deadline=Non
         sc = scan()
         ledger[:] = [i for i in ledger if present(i, sc)]
 
+    def tag_ledger(d):
+        for it in ledger:
+            it.setdefault("dir", norm(d))
+
     def git_dirs():
         """git clones in the workspace proper, as (normalised recipe dir, path)"""
         out = []
@@ -604,8 +608,11 @@ def _history(w, r, rec, nevents, want_model, parse_gitlog, snap_of, deadline=Non
             if not present(item, sc):
                 sig = "user-work-lost-by-" + kind
                 if kind == "clean-attic":
-                    # which registration covered the directory that held it?
                     sig = "F-C12-attic-clean-removes-nested-user-work"
+                    first = (item.get("dir") or ".").split("/")[0]
+                    if first != "." and first < ".":
+                        # the SCM directory sorts before "." in checkoutsFromState: it was not treated as nested
+                        sig = "F-C12-nested-scm-sorted-before-dot-not-registered"
                 rec["violations"].append({
                     "what": "%s destroyed user work: %s is nowhere under the project any more (log: %s; output tail: %s)"
                             % (" ".join(["bob"] + args), json.dumps(item), "; ".join(describe()[-6:]),
@@ -706,6 +713,7 @@ def _history(w, r, rec, nevents, want_model, parse_gitlog, snap_of, deadline=Non
         elif k < 0.62 and gd:
             d, path = r.choice(gd)
             desc = user_op(w, r, path, ledger)
+            tag_ledger(d)
             cache.clear()
             touched.add(norm(d))
             rec["log"].append("user %s: %s" % (d, desc))
@@ -736,6 +744,7 @@ def _history(w, r, rec, nevents, want_model, parse_gitlog, snap_of, deadline=Non
         if gd and used:
             d, path = r.choice(gd)
             desc = user_op(w, r, path, ledger)
+            tag_ledger(d)
             cache.clear()
             touched.add(norm(d))
             rec["log"].append("user %s: %s" % (d, desc))
@@ -753,6 +762,7 @@ def _history(w, r, rec, nevents, want_model, parse_gitlog, snap_of, deadline=Non
         if gd and used:
             d, path = r.choice(gd)
             desc = user_op(w, r, path, ledger)
+            tag_ledger(d)
             cache.clear()
             touched.add(norm(d))
             rec["log"].append("user %s: %s" % (d, desc))
